@@ -11,6 +11,7 @@ import LdpcV.Driver.C04F
 import LdpcV.Driver.C13
 import LdpcV.Driver.C12
 import LdpcV.Driver.C16
+import LdpcV.Driver.C19
 open LdpcV
 
 def dispatch (line : String) : String :=
@@ -36,6 +37,7 @@ def dispatch (line : String) : String :=
   | "c13" :: rest => Driver.C13.handle rest out
   | "c12" :: rest => Driver.C12.handle rest out
   | "c16" :: rest => Driver.C16.handle rest out
+  | "c19" :: rest => Driver.C19.handle rest out
   | _ => "BADLINE unknown-tag"
 
 partial def loop (h : IO.FS.Stream) (o : IO.FS.Stream) : IO Unit := do
